@@ -363,6 +363,48 @@ func checkC11(p *Prog, r *Report) {
 			rConn.Bad(fnName(a.Fn)+":direction-attr", a.Fn.Pos(), "the logger handed to the proxy does not carry the %q attribute: Shell I/O records would not give the direction", lkDir)
 		}
 	}
+	/* Handlers: every request on a shell route reaches the broker (which
+	logs acceptance or refusal), or fails for an infrastructure reason. */
+	for _, rt := range muxRoutes(p) {
+		if nil == rt.Handler {
+			continue
+		}
+		var conn ssa.Instruction
+		eachInstr(rt.Handler, func(i ssa.Instruction) {
+			if cc := callCommon(i); nil != cc && nil != cc.StaticCallee() && "Broker" == recvTypeName(cc.StaticCallee()) && strings.HasPrefix(cc.StaticCallee().Name(), "Connect") {
+				conn = i
+			}
+		})
+		if nil == conn {
+			continue
+		}
+		c := fmt.Sprintf("route %s→%s:always-reaches-broker", rt.Pattern, fnName(rt.Handler))
+		/* Early returns are accepted only below the failure edge of the
+		response controller (full duplex / initial flush). */
+		noEdges := map[Edge]bool{}
+		eachInstr(rt.Handler, func(i ssa.Instruction) {
+			call, ok := i.(*ssa.Call)
+			if !ok || !isErrorType(call.Type()) || !strings.HasPrefix(calleeName(call.Common()), "(*net/http.ResponseController).") {
+				return
+			}
+			for _, t := range nilTestsOf(rt.Handler, call) {
+				noEdges[Edge{t.If.Block().Index, t.If.Block().Succs[1-t.NilSucc].Index}] = true
+			}
+		})
+		miss := reachQ{From: entryLoc(rt.Handler), Target: isReturn, Block: func(i ssa.Instruction) bool {
+			if i == conn {
+				return true
+			}
+			/* A refusal the handler records itself. */
+			cc := callCommon(i)
+			return nil != cc && strings.HasPrefix(calleeName(cc), "(*log/slog.Logger).Error")
+		}, NoEdges: noEdges}.run()
+		if nil != miss {
+			rConn.Bad(c, posOf(miss), "a request on %s can be turned away by the handler itself without reaching the broker: the refused stream has no connect, disconnect or error record in the log", rt.Pattern)
+		} else {
+			rConn.OK(c, posOf(conn), "every request reaches the broker's admission (which logs it)")
+		}
+	}
 	checkC11Wiring(p, r, rWire)
 }
 
